@@ -403,6 +403,11 @@ fn query_case<F: Sc>(em: &mut Em, s: &Setup<F>, kind: Kind, q: &[F], qstrided: b
                 ctx.require(!well_formed, "no_error_on_valid", &cls, || format!("well-formed build/query answered {}", e));
                 if !well_formed {
                     ctx.require(applicable.contains(&e.as_str()), "errors", &cls, || format!("malformed input reported as `{}`, the defects present are {:?}", e, applicable));
+                    if applicable.len() > 1 {
+                        // which of several coinciding defects is named is not promised by the statement
+                        // (each kind has its own order of guards): not compared with the model
+                        return "err multiple".to_string();
+                    }
                 }
                 return e;
             }
